@@ -56,6 +56,13 @@ func C04() int {
 		}
 		items = append(items, rawItem(kind, l, i))
 	}
+	for i, l := range g.BoundaryLines() {
+		kind := "boundary-other"
+		if l.T == nil {
+			kind = "boundary-command"
+		}
+		items = append(items, rawItem(kind, l, i))
+	}
 	for i, l := range g.EnvelopeKinds() {
 		items = append(items, rawItem("envelope-kind", l, i))
 	}
